@@ -261,19 +261,77 @@ def dir_style(rng, cwd, abs_dir, proj: Project):
     return rel
 
 
+def gen_farm_plan(seed: int, mode: str, n: int = 0):
+    """A build farm / very long-lived process: many hundred DISTINCT schemas compiled one
+    after another in one process (each tree dropped after use, the garbage collector left
+    alone), then a sample of the early ones compiled again. Bounded caches evict, freed
+    addresses are reused, counters grow."""
+    rng = Rng(seed, "farm", mode)
+    n = n or rng.randint(560, 820)
+    img = {"dirs": ["/w", "/w/pa", "/w/pa/out"], "files": {}, "symlinks": {}, "hardlinks": {}, "cwd": "/w/pa"}
+    keys, ops, texts = {}, [], {}
+
+    def compile_op(k, lang, keyed):
+        name = "m%d.bitproto" % k
+        argv = [lang, name, "out"] + (["-q"] if rng.chance(0.5) else [])
+        op = {"op": "cli", "argv": argv, "outdir_abs": "/w/pa/out"}
+        if keyed and mode == "c18":
+            kid = h("farm", texts[k], lang)
+            keys.setdefault(kid, {"api": "cli", "files": {name: texts[k]}, "extras": False, "main": name, "lang": lang, "opt": False, "filter": None, "endian": "both"})
+            op["key"] = kid
+        ops.append(op)
+
+    for k in range(n):
+        s, _ = schemagen.generate(rng.sub("schema", k), fleet=False, name="m%d" % k)
+        texts[k] = s.text()
+        img["files"]["/w/pa/m%d.bitproto" % k] = texts[k]
+    sid = 0
+    for k in range(n):
+        lang = rng.choice(LANGS)
+        if rng.chance(0.25):
+            # API use with an explicit drop
+            ops.append({"op": "parse", "sid": sid, "path": "m%d.bitproto" % k, "trad": False})
+            ops.append({"op": "render", "sid": sid, "lang": lang, "outdir": "out", "outdir_abs": "/w/pa/out", "opt": False, "filter": None, "endian": "both"})
+            ops.append({"op": "drop", "sid": sid})
+            sid += 1
+        else:
+            compile_op(k, lang, keyed=(k % 9 == 0))
+        if rng.chance(0.01):
+            ops.append({"op": "jitter", "kind": "gc"})
+    # compile a sample of the early schemas again, all languages, compared with goldens
+    for k in rng.sample(range(n), min(40, n)):
+        for lang in LANGS:
+            compile_op(k, lang, keyed=True)
+    plan = {
+        "world": "compiler",
+        "mode": mode,
+        "seed": seed,
+        "hashseed": Rng(seed, "env", "hashseed").below(4294967295) + 1,
+        "knob_cache": True,
+        "fs": img,
+        "ops": ops,
+        "faults": [],
+    }
+    return plan, keys
+
+
 def gen_plan(seed: int, mode: str, scale: int = 1):
     """mode: 'c09' (mutation-heavy, unkeyed) | 'c18' (valid-heavy, keyed).
     scale > 1 (thorough tier, a third of the seeds): longer histories, more projects."""
     rng = Rng(seed, "workload", mode)
     cfg = Rng(seed, "swarm", mode)
     if scale > 1:
-        if Rng(seed, "long").chance(0.04):
+        if Rng(seed, "verylong").chance(0.012):
+            if Rng(seed, "farmshape").chance(0.6):
+                return gen_farm_plan(seed, mode)
+            scale = 64  # a process that lives through more than a thousand operations (bounded caches evict, freed addresses are reused)
+        elif Rng(seed, "long").chance(0.04):
             scale = 8  # a long-lived process: hundreds of operations (counters, bounded caches, "seen" sets)
         elif not Rng(seed, "scale").chance(0.34):
             scale = 1
     img = {"dirs": ["/w"], "files": {}, "symlinks": {}, "hardlinks": {}, "cwd": "/w"}
     projects = []
-    nproj = (cfg.randint(2, 5) if mode == "c09" else cfg.randint(1, 3)) + (scale - 1)
+    nproj = (cfg.randint(2, 5) if mode == "c09" else cfg.randint(1, 3)) + min(scale - 1, 9)
     if mode == "c09":
         mix = [("mutated", cfg.randint(2, 8)), ("template", cfg.randint(1, 6)), ("soup", cfg.randint(0, 3)), ("corpus", 1), ("generated", cfg.randint(1, 4))]
     else:
@@ -479,6 +537,9 @@ def gen_plan(seed: int, mode: str, scale: int = 1):
                 steps.append(lambda: ops.append({"op": "lint", "sid": sid}))
             if rng.chance(0.15):
                 steps.append(lambda v=rng.below(6): ops.append({"op": "introspect", "sid": sid, "variant": v}))
+        if rng.chance(0.8):
+            # the caller lets go of the finished compilation (a language server keeps one tree per open file)
+            steps.append(lambda: ops.append({"op": "drop", "sid": sid}))
         return steps
 
     def cli_task(p: Project):
@@ -569,7 +630,7 @@ def gen_plan(seed: int, mode: str, scale: int = 1):
     if mode == "c09" and cfg.chance(0.6):
         cands = [p for p in projects if p.origin in ("generated", "template") or p.origin.startswith("corpus:")] or projects
         tasks.append(sweep_task(rng.choice(cands)))
-    p_restart = cfg.choice([0.0, 0.03, 0.08])
+    p_restart = cfg.choice([0.0, 0.03, 0.08]) if scale < 64 else 0.0  # a very long history must stay one process
     p_jitter = cfg.choice([0.0, 0.1, 0.25])
     p_edit = cfg.choice([0.0, 0.05, 0.12])
     p_chdir = cfg.choice([0.0, 0.08, 0.2])
